@@ -314,6 +314,7 @@ func (g *Gen) instr(ins ssa.Instruction) {
 		elem := x.Addr.Type().Underlying().(*types.Pointer).Elem()
 		g.store(elem, addr.S[0], addr.S[1], g.val(x.Val))
 		g.eng.onStore(g, x, addr)
+		g.atPoint("store", "", x, x.Pos())
 	case *ssa.UnOp:
 		g.vals[x] = g.unop(x)
 	case *ssa.BinOp:
@@ -340,6 +341,9 @@ func (g *Gen) instr(ins ssa.Instruction) {
 		return
 	case *ssa.Call:
 		g.vals[x] = g.call(x, x.Common(), x.Pos())
+		if callee := x.Common().StaticCallee(); callee != nil {
+			g.atPoint("call", callee.Name(), x, x.Pos())
+		}
 	case *ssa.Extract:
 		t := g.val(x.Tuple)
 		if t.Tuple == nil || x.Index >= len(t.Tuple) {
@@ -474,7 +478,7 @@ func (g *Gen) unop(x *ssa.UnOp) *Val {
 		for i, t := range lv.S {
 			named[i] = g.def("ld_"+x.Name(), cs[i].Sort, t)
 		}
-		g.assume(g.cellRanges(x.Type(), named))
+		g.assumeRange(g.cellRanges(x.Type(), named), true)
 		out := g.valFromCells(x.Type(), named)
 		g.assume(g.wellFormedLoaded(out))
 		return out
@@ -968,7 +972,37 @@ func (g *Gen) eqVals(a, b *Val) string {
 
 // ---------- return / panic ----------
 
+// applyUsing restricts an obligation's context to the named facts.
+func (g *Gen) applyUsing(o *Obligation, c *Clause) {
+	if o == nil || len(c.Using) == 0 {
+		return
+	}
+	o.Using = c.Using
+	o.SinceLine = -1
+	for _, u := range c.Using {
+		if strings.HasPrefix(u, "since(") && strings.HasSuffix(u, ")") {
+			m := strings.TrimSuffix(strings.TrimPrefix(u, "since("), ")")
+			idx, ok := g.marks[m]
+			if !ok {
+				g.bindFail(fmt.Sprintf("clause %q uses unknown mark %q", c.Text, m))
+				continue
+			}
+			if o.SinceLine < 0 || idx < o.SinceLine {
+				o.SinceLine = idx
+			}
+			continue
+		}
+		f, ok := g.facts[u]
+		if !ok {
+			g.bindFail(fmt.Sprintf("clause %q uses unknown fact %q", c.Text, u))
+			continue
+		}
+		o.UsingFacts = append(o.UsingFacts, f)
+	}
+}
+
 func (g *Gen) doReturn(x *ssa.Return) {
+	g.atPoint("return", "", x, x.Pos())
 	results := map[string]*Val{}
 	sig := g.fn.Signature
 	for i, r := range x.Results {
@@ -994,7 +1028,8 @@ func (g *Gen) doReturn(x *ssa.Return) {
 	env.goal = true
 	for _, c := range g.ct.Ensures {
 		t := g.specBool(env, c.E)
-		g.obligeNamed(fmt.Sprintf("%s#%s@ret%d", g.unit, c.Name, g.kcnt["ret"]), "post", t, x.Pos(), "postcondition: "+c.Text, c.Props)
+		o := g.obligeNamed(fmt.Sprintf("%s#%s@ret%d", g.unit, c.Name, g.kcnt["ret"]), "post", t, x.Pos(), "postcondition: "+c.Text, c.Props)
+		g.applyUsing(o, c)
 	}
 	g.frameCheck(env, x.Pos())
 	g.eng.onReturn(g, x)
@@ -1034,4 +1069,152 @@ func (g *Gen) doPanic(x *ssa.Panic) {
 		return
 	}
 	g.oblige("panic", "false", x.Pos(), "explicit panic is unreachable", nil)
+}
+
+// atPoint runs ghost statements attached to the program point just passed.
+func (g *Gen) atPoint(kind, callee string, ins ssa.Instruction, pos token.Pos) {
+	if len(g.ct.Ats) == 0 {
+		return
+	}
+	key := kind + ":" + callee
+	if g.pointCount == nil {
+		g.pointCount = map[ssa.Instruction]int{}
+		cnt := map[string]int{}
+		// ordinals follow source order: blocks by index, instructions in order
+		for _, b := range g.fn.Blocks {
+			for _, i := range b.Instrs {
+				switch y := i.(type) {
+				case *ssa.Store:
+					g.pointCount[i] = cnt["store:"]
+					cnt["store:"]++
+				case *ssa.Return:
+					g.pointCount[i] = cnt["return:"]
+					cnt["return:"]++
+				case *ssa.Call:
+					if c := y.Common().StaticCallee(); c != nil {
+						g.pointCount[i] = cnt["call:"+c.Name()]
+						cnt["call:"+c.Name()]++
+					}
+				}
+			}
+		}
+	}
+	ord, ok := g.pointCount[ins]
+	if !ok {
+		return
+	}
+	for _, as := range g.ct.Ats {
+		if as.PointKind+":"+as.Callee != key || (as.Ordinal != ord && as.Ordinal != -1) {
+			continue
+		}
+		as.Used = true
+		env := g.pointEnv(ins)
+		switch as.Kind {
+		case "assert":
+			env.goal = true
+			t := g.specBool(env, as.C.E)
+			o := g.obligeNamed(fmt.Sprintf("%s#%s", g.unit, as.C.Name), "assert", t, pos, "ghost assertion: "+as.C.Text, as.C.Props)
+			g.applyUsing(o, as.C)
+			if as.C.Label != "" {
+				g.facts[as.C.Label] = fmt.Sprintf("(=> %s %s)", g.reach, t)
+			}
+		case "mark":
+			g.marks[as.Name] = len(g.lines)
+		case "ghost":
+			v := g.specVal(env, as.C.E)
+			if v != nil {
+				// name the terms so that later heap changes do not affect the binding
+				nv := *v
+				nv.S = nil
+				for i, t := range v.S {
+					srt := "Int"
+					if v.Sort == "Bool" || v.Sort == "Fp" || v.Sort == "Fr" || v.Sort == "Bytes" {
+						srt = v.Sort
+					} else if v.Agg && v.T != nil {
+						srt = g.lay.Cells(v.T)[i].Sort
+					}
+					nv.S = append(nv.S, g.def("gh_"+as.Name, srt, t))
+				}
+				g.lets[as.Name] = &nv
+			}
+		}
+	}
+}
+
+// pointEnv: environment for ghost statements at an instruction: current heap, local names resolved
+// to their latest binding before the instruction.
+func (g *Gen) pointEnv(at ssa.Instruction) *Env {
+	env := g.entryEnv()
+	env.heap = g.heap
+	env.nextobj = g.nextobj
+	env.ghost = g.ghost
+	env.resolve = func(name string) *Val { return g.resolveBefore(at, name) }
+	return env
+}
+
+// resolveBefore finds the value of source variable `name` just after instruction at.
+func (g *Gen) resolveBefore(at ssa.Instruction, name string) *Val {
+	b := at.Block()
+	var best ssa.Value
+	bestAddr := false
+	bestKey := -1
+	for _, blk := range g.fn.Blocks {
+		same := blk == b
+		if !same && !blk.Dominates(b) {
+			continue
+		}
+		for i, ins := range blk.Instrs {
+			if same && ins == at {
+				// refs emitted right after `at` for its own result belong to it: look a little ahead
+				for j := i + 1; j < len(blk.Instrs); j++ {
+					ref, ok := blk.Instrs[j].(*ssa.DebugRef)
+					if !ok {
+						break
+					}
+					if ref.Object() != nil && ref.Object().Name() == name {
+						if _, isVar := ref.Object().(*types.Var); isVar {
+							if _, known := g.vals[ref.X]; known || isConstLike(ref.X) {
+								best, bestAddr, bestKey = ref.X, ref.IsAddr, 1<<30
+							}
+						}
+					}
+				}
+				break
+			}
+			ref, ok := ins.(*ssa.DebugRef)
+			if !ok || ref.Object() == nil || ref.Object().Name() != name {
+				continue
+			}
+			if _, isVar := ref.Object().(*types.Var); !isVar {
+				continue
+			}
+			if _, known := g.vals[ref.X]; !known && !isConstLike(ref.X) {
+				continue
+			}
+			key := blk.Index*100000 + i
+			if same {
+				key += 1 << 28
+			}
+			if key > bestKey {
+				best, bestAddr, bestKey = ref.X, ref.IsAddr, key
+			}
+		}
+	}
+	if best == nil {
+		return nil
+	}
+	v := g.val(best)
+	if bestAddr {
+		elem := best.Type().Underlying().(*types.Pointer).Elem()
+		return g.loadFrom(g.heap, elem, v.S[0], v.S[1])
+	}
+	return v
+}
+
+func isConstLike(v ssa.Value) bool {
+	switch v.(type) {
+	case *ssa.Const, *ssa.Global, *ssa.Function, *ssa.Parameter, *ssa.FreeVar:
+		return true
+	}
+	return false
 }
